@@ -356,7 +356,7 @@ def value_cases(draw):
         err = _nested(draw, shape, _S_ERR)
     w, r = draw(S_CFG_PAIR)
     return {'shape': shape, 'kind': kind, 'unit': unit, 'v': v, 'error': err, 'dtype': dt, 'ro': draw(S_BOOL), 'cm': draw(S_BOOL),
-            'form': draw(_sf(('np', 'np', 'np', 'np0d', 'py', 'tuple',))), 'layout': draw(S_LAYOUT), 'elayout': draw(S_LAYOUT),
+            'form': draw(_sf(('np', 'np', 'np', 'np', 'np0d', 'np0d', 'py', 'tuple',))), 'layout': draw(S_LAYOUT), 'elayout': draw(S_LAYOUT),
             'enc': draw(S_ENC), 'cfgW': w, 'cfgR': r}
 
 
@@ -594,3 +594,109 @@ def elastic_cases(draw):
     return {'family': fam, 'Cij': C, 'normalize': draw(_sf(('family', 'family', 'triclinic', 'default',))),
             'unit': draw(S_PRESSURE_OR_NONE), 'perturb': perturb, 'relabel': draw(_sf((0, 0, 0, 1, 2, 3, 4, 5,))), 'cm': draw(S_BOOL),
             'enc': draw(S_ENC), 'ctor': draw(S_BOOL), 'cfgW': w, 'cfgR': r}
+
+
+# ----------------------------------------------------------------------------- histories: ledger, caller-side mutation, unit plans
+# One caller, one process: a value array (with error), a System (its Box and Atoms: pos, a vector property 'disp' with a unit, an
+# integer property 'flag') and an ElasticConstants, each with two sets of content (the caller overwrites one with the other).
+# Steps (interpreted by c10.oracle_history; indices are resolved modulo what exists, so that any sub-list is a valid history):
+#   {'op': 'w', 't': value|box|system|elastic, 'v': n}      write a model (variant n picks units / options), keep it
+#   {'op': 'r', 'k': n, 'enc': dict|json|xml, 'v': n}        read the k-th model kept (new object, or into an existing one), keep the result
+#   {'op': 'cfg', 'cfg': ..., 'rebuild': bool}                 reset_units; rebuild: the caller re-expresses its objects in the new units
+#   {'op': 'min', 't': ..., 'v': n}                            the caller overwrites in place / through setters what it handed IN
+#   {'op': 'mout', 'k': n, 'v': n}                             the caller overwrites in place something it was handed OUT (model or object)
+HIST_TYPES = ('value', 'box', 'system', 'elastic')
+_S_HT = st.sampled_from(HIST_TYPES + ('system', 'value'))
+_S_V = st.integers(0, 23)
+_S_K = st.integers(0, 11)
+_S_STEP = st.one_of(
+    st.builds(lambda t, v: {'op': 'w', 't': t, 'v': v}, _S_HT, _S_V),
+    st.builds(lambda t, v: {'op': 'w', 't': t, 'v': v}, _S_HT, _S_V),
+    st.builds(lambda k, e, v: {'op': 'r', 'k': k, 'enc': e, 'v': v}, _S_K, S_ENC, _S_V),
+    st.builds(lambda k, e, v: {'op': 'r', 'k': k, 'enc': e, 'v': v}, _S_K, S_ENC, _S_V),
+    st.builds(lambda c, b: {'op': 'cfg', 'cfg': c, 'rebuild': b}, S_CFG, S_BOOL),
+    st.builds(lambda t, v: {'op': 'min', 't': t, 'v': v}, _S_HT, _S_V),
+    st.builds(lambda k, v: {'op': 'mout', 'k': k, 'v': v}, _S_K, _S_V),
+)
+_S_WSTEP = st.builds(lambda t, v: {'op': 'w', 't': t, 'v': v}, _S_HT, _S_V)
+_S_STEPS = st.lists(_S_STEP, min_size=2, max_size=9)
+_S_VSHAPE = st.sampled_from([[3], [2, 3], [3, 2], [2, 2, 3], [3, 3]])
+_S_NHIST = st.sampled_from([1, 2, 3, 4])
+
+
+def _ec_tensor(draw):
+    fam = draw(_sf(tuple(EC_SYSTEMS[:-1])))
+    p = {'C11': draw(_DIAG), 'C22': draw(_DIAG), 'C33': draw(_DIAG), 'C12': draw(_OFF), 'C13': draw(_OFF),
+         'C23': draw(_OFF), 'C44': draw(_SHEAR), 'C55': draw(_SHEAR), 'C66': draw(_SHEAR),
+         'C14': draw(_COUP), 'C15': draw(_COUP0), 'C16': draw(_COUP0)}
+    s = draw(_EC_SCALE)
+    return [[x * s for x in row] for row in ec_matrix(fam, p)]
+
+
+@st.composite
+def history_cases(draw):
+    n = draw(_S_NHIST)
+    vshape = draw(_S_VSHAPE)
+    data = []
+    for _ in range(2):
+        data.append({'cell': draw(_S_CELL10), 'rel': _nested(draw, [n, 3], _S_REL10), 'disp': _nested(draw, [n, 3], _FN),
+                     'flag': _nested(draw, [n], _I), 'val': _floats(draw, vshape), 'err': _nested(draw, vshape, _S_ERR),
+                     'Cij': _ec_tensor(draw)})
+    ntypes = draw(_si(1, 2))
+    return {'natoms': n, 'atype': [draw(_si(1, ntypes)) for _ in range(n)], 'pbc': draw(gens.pbcs),
+            'symbols': [draw(_S_ELEM) for _ in range(ntypes)], 'masses': [draw(_S_MASS) for _ in range(ntypes)],
+            'vshape': vshape, 'vu': draw(S_UNIT_OR_NONE), 'du': draw(S_ANY_UNIT), 'eu': draw(S_PRESSURE_OR_NONE),
+            'data': data, 'cfg0': draw(S_CFG), 'steps': [draw(_S_WSTEP), draw(_S_WSTEP)] + draw(_S_STEPS)}
+
+
+# ----------------------------------------------------------------------------- enumerated option combinations (class H)
+# One small system (tilted cell, non-zero origin, 3 atoms, 2 types), every combination of: position unit (absent from the
+# selection, None, angstrom, nm, scaled) x unit of the vector property 'disp' (absent, None, nm, scaled) x unit of the vector
+# property 'v_k' (absent, scaled, angstrom/ps) x every ORDER of the selected names (atype first or last) x prop_unit /
+# prop_name+unit x box_unit (default, nm) x route/encoding.  The numbers double as box-relative coordinates when 'scaled'.
+_OPT_CELL = {'lx': 4.05, 'ly': 5.2, 'lz': 6.1, 'xy': 1.3, 'xz': -0.7, 'yz': 0.9, 'origin': [1.5, -2.25, 3.0], 'rot': None,
+             'lefthanded': False}
+_OPT_REL = [[0.0, 0.5, 0.25], [0.3125, 0.6875, 1.125], [-0.25, 0.9375, 0.4375]]
+_OPT_DISP = [[0.125, -0.5, 0.75], [1.25, 0.0625, -0.375], [0.5, 0.25, -1.5]]
+_OPT_VK = [[-0.75, 0.375, 0.0], [0.625, 1.5, -0.125], [0.25, -0.25, 0.875]]
+_OPT_CFGS = [({'kind': 'named', 'units': {'length': 'nm', 'mass': 'kg', 'energy': 'J'}}, DEFAULT_CFG),
+             (DEFAULT_CFG, {'kind': 'SI'}),
+             ({'kind': 'seed', 'seed': 7}, {'kind': 'named', 'units': {'length': 'aBohr', 'time': 'fs', 'charge': 'C'}})]
+_OPT_ROUTES_QUICK = [('model', 'dict'), ('dump', 'json'), ('dump_f', 'xml')]
+_OPT_ROUTES_ALL = [('model', 'dict'), ('model', 'json'), ('model', 'xml'), ('dump', 'dict'), ('dump', 'json'), ('dump', 'xml'),
+                   ('dump_f', 'json'), ('dump_f', 'xml'), ('dump_path', 'json'), ('dump_path', 'xml')]
+
+
+@functools.lru_cache(maxsize=None)
+def option_cases(tier):
+    routes = _OPT_ROUTES_QUICK if tier == 'quick' else _OPT_ROUTES_ALL
+    cfgs = _OPT_CFGS[:1] if tier == 'quick' else _OPT_CFGS
+    cases = []
+    for pos_u in ('absent', None, 'angstrom', 'nm', 'scaled'):
+        for disp_u in ('absent', None, 'nm', 'scaled'):
+            for vk_u in ('absent', 'scaled', 'angstrom/ps'):
+                props, names = [], []
+                if pos_u != 'absent':
+                    names.append('pos')
+                if disp_u != 'absent':
+                    props.append({'name': 'disp', 'kind': 'f', 'shape': [3, 3], 'unit': disp_u, 'values': _OPT_DISP, 'layout': 'C'})
+                    names.append('disp')
+                if vk_u != 'absent':
+                    props.append({'name': 'v_k', 'kind': 'f', 'shape': [3, 3], 'unit': vk_u, 'values': _OPT_VK, 'layout': 'C'})
+                    names.append('v_k')
+                for order in itertools.permutations(names):
+                    for sel in (['atype'] + list(order), list(order) + ['atype']):
+                        for how in ('prop_unit', 'prop_name'):
+                            for box_unit in (None, 'nm'):
+                                for route, enc in routes:
+                                    for w, r in cfgs:
+                                        case = {'cell': _OPT_CELL, 'pbc': [True, False, True], 'natoms': 3, 'atype': [1, 2, 1],
+                                                'rel': _OPT_REL, 'pos_layout': 'C', 'atype_layout': 'C', 'symbols': ['Al', 'Cu'],
+                                                'masses': [26.98, None], 'pos_unit': None if pos_u == 'absent' else pos_u,
+                                                'box_unit': box_unit, 'props': props, 'select': sel, 'how': how, 'route': route,
+                                                'enc': enc, 'indent': None, 'cfgW': w, 'cfgR': r, 'keep_kw': False, 'cm': False}
+                                        if route == 'dump_path':
+                                            case['ext'] = '.' + enc
+                                            case['give_format'] = False
+                                        cases.append(case)
+    return cases
